@@ -1286,6 +1286,12 @@ func (m *Machine) callSSA(caller *frame, callpos token.Pos, fn *ssa.Function, ar
 		fr := &frame{m: m, caller: caller, fn: fn, callpos: callpos}
 		return ext(m, fr, args)
 	}
+	return m.callSource(caller, callpos, fn, args, env)
+}
+
+// callSource interprets the function's own SSA body (also used by externals that only
+// summarise the concrete case and hand symbolic arguments to the real code).
+func (m *Machine) callSource(caller *frame, callpos token.Pos, fn *ssa.Function, args []value, env []value) value {
 	if fn.Blocks == nil {
 		// package initialisers of packages on the deny list, and bodiless functions
 		panic(unsupported{"no code for function: " + fn.String()})
